@@ -72,7 +72,7 @@ check(
     "stdlib zlib/gzip and re-read through joblib.",
     "stdlib zlib/gzip are the reference; operation lists up to 30 ops; seeks to negative positions and read(None) are not "
     "generated; thread-safety of the file object is not exercised.",
-    "Hypothesis model-based (stateful) operation sequences vs reference byte-stream model; differential vs stdlib codecs",
+    "Hypothesis model-based (stateful) operation sequences vs reference byte-stream model; differential vs stdlib codecs; plus an atheris (libFuzzer) coverage-guided campaign on the same oracle",
     "DESIGN.md section 4 C13",
 )
 
